@@ -73,14 +73,14 @@ class TaskScheduler(object):
                 if task.is_computed():
                     break
                 self._continue_with_batch()
-        except BaseException:
+        finally:
             if not self._tasks:
                 # No computation is left on this scheduler, so the batches that are still
-                # pending were scheduled by tasks that have been abandoned: the next
-                # computation must not flush them. (An item that is still wanted schedules
-                # its batch again, or flushes it when asked for its value.)
+                # pending were scheduled by tasks that have been abandoned (the computation
+                # was ended by an exception, or a task was failed while it was waiting): the
+                # next computation must not flush them. (An item that is still wanted
+                # schedules its batch again, or flushes it when asked for its value.)
                 self._batches = set()
-            raise
 
     def _execute(self, root_task):
         """Implements task execution loop.
